@@ -51,7 +51,7 @@ func ruleHandover(w *World, r *Report, rule string) {
 		return
 	}
 	bad := ""
-	n, over := w.enumPaths(loop, pathOpts{InlineDepth: 3, Start: arm}, func(p *Path) {
+	n, over := w.enumPaths(loop, pathOpts{InlineDepth: 3, Inline: w.helperInline(loop), Start: arm}, func(p *Path) {
 		if bad != "" || p.Exit != "return" {
 			return
 		}
